@@ -57,14 +57,16 @@ SpecListOf == [
   y125   |-> << <<"Y", <<5, 4>>, 1>> >>,
   x2y5   |-> << <<"X", <<2, 1>>, 1>>, <<"Y", <<5, 1>>, 1>> >>,
   x20p10 |-> << <<"X", <<20, 1>>, 10>> >>,
+  x20p1  |-> << <<"X", <<20, 1>>, 1>> >>,                         \* the same term amount per ONE unit
   x12    |-> << <<"X", <<6, 5>>, 1>> >>,                          \* 1.2 and 8.5: the cross rates do not terminate
   y85    |-> << <<"Y", <<17, 2>>, 1>> >>,
   xx     |-> << <<"X", <<2, 1>>, 1>>, <<"X", <<4, 1>>, 1>> >>,
   xbad0  |-> << <<"X", <<0, 1>>, 1>> >>,
   x4ybad |-> << <<"X", <<4, 1>>, 1>>, <<"Y", <<-1, 1>>, 1>> >>,
+  chfstr |-> << <<"X", <<4, 1>>, 1>>, <<"CHFs", <<3, 1>>, 1>> >>,   \* a term currency given as the ISO code of a currency nobody registered
   bident |-> << <<"B", <<2, 1>>, 1>> >>,
   empty  |-> <<>> ]
-ValidSpec(s) == s[1] # "B" /\ s[2][1] > 0 /\ s[3] >= 1
+ValidSpec(s) == s[1] \notin {"B", "CHFs"} /\ s[2][1] > 0 /\ s[3] >= 1
 RateOfSpec(s) == RDiv(s[2], <<s[3], 1>>)
 
 VARIABLES kind, table, today, obs, out
